@@ -145,6 +145,12 @@ def run(tier):
                 "gain, value history/index, period and (PI) policy to carry bitwise the tag of the chosen step, the "
                 "rebuilt configuration to equal the original, overrides to take effect, the original directory to stay "
                 "byte-identical, and the two documented errors on the error paths. distinct = distinct scenario")
+    # several directories: which one a solver saves to, which one restore() reads, backup copies, default directories
+    res = C.run_tlc("CheckpointDirs", "CheckpointDirsSmall.cfg" if tier == "quick" else "CheckpointDirs.cfg", coverage=True)
+    C.tlc_must_be_clean(res, "CheckpointDirs")
+    rep.add_tlc("CheckpointDirs (directories as sets of committed steps: new / default / copy / restore with and without a new directory)", res)
+    if res.invariant_violated:
+        rep.violation("spec:CheckpointDirs " + ",".join(res.violated), {"tlc": res.out[-3000:]})
     for cfg in ("Checkpoint.cfg", "CheckpointExplicit.cfg"):
         res = C.run_tlc("Checkpoint", cfg, coverage=True)
         C.tlc_must_be_clean(res, "Checkpoint " + cfg)
